@@ -415,6 +415,22 @@ theorem cache_scope_is_forwarded_prefix_v4 (pol : Policy) (client : Option Addr)
   simp only [requestScope, ha, firstEcs, Fwd.toSubnet, hf, Fam.width]
   simp [ipToAddr, hl, hb, Addr.prefix?, Fam.width, hm, maskTo_of_aligned 32 f.mask f.val hz]
 
+/-- the IPv6 twin: unless the sixteen forwarded bytes spell an IPv4-mapped
+address (which `Clamp` never forwards under family 2: see `wire_v6_subnet_clamped`
+and the hypothesis here), the cache's client scope is the forwarded prefix. -/
+theorem cache_scope_is_forwarded_prefix_v6 (pol : Policy) (client : Option Addr) (s : Subnet) (f : Fwd)
+    (hc : clamp (some pol) s = some f) (hf : f.fam = .v6) (hv : f.val < 2 ^ 128)
+    (hnm : isMapped16 (natBytes 16 f.val) = false)
+    (ha : allows (some pol) client = true) :
+    requestScope (some pol) client (some [Opt.ecs f.toSubnet]) = some ⟨.v6, f.val, f.mask⟩ := by
+  obtain ⟨_, _, hm, _, hz, _⟩ := clamp_le_ceiling_and_zeroes_host_bits pol s f hc
+  rw [hf] at hm hz
+  simp only [Fam.width] at hm hz
+  have hl := natBytes_length 16 f.val
+  have hb := bytesVal_natBytes 16 f.val (by simpa using hv)
+  simp only [requestScope, ha, firstEcs, Fwd.toSubnet, hf, Fam.width]
+  simp [ipToAddr, hl, hb, hnm, Addr.prefix?, Fam.width, hm, maskTo_of_aligned 128 f.mask f.val hz]
+
 /-- **Scoped answers are capped by the scoped TTL limit** (when one is
 configured) and are never lengthened — positive answers, NODATA, NXDOMAIN and
 referral-shaped replies alike. -/
@@ -811,6 +827,8 @@ example : readResponseScope (resolverHandUp (some [.ecs (Fwd.mk .v4 19 0x0a01e00
     (some [.ecs ⟨1, 19, 24, some [10, 1, 0xe0, 0]⟩])) = some ⟨.v4, 0x0a01e000, 24⟩ := by decide
 example : readResponseScope (resolverHandUp (some [.ecs (Fwd.mk .v4 19 0x0a01e000).toSubnet]) (some [])) = none := by decide
 example : lookupKey 7 false [.ecs (Fwd.mk .v4 24 0x0a010200).toSubnet] ≠ lookupKey 7 false [.ecs (Fwd.mk .v4 24 0xc6336400).toSubnet] := by decide
+example : requestScope (some demoPol) (some ⟨.v4, 0x0a010203⟩) (some [.ecs (Fwd.mk .v6 56 0x20010db8000a00000000000000000000).toSubnet]) =
+    some ⟨.v6, 0x20010db8000a00000000000000000000, 56⟩ := by decide
 -- a client reply never keeps the forwarded copy nor the upstream's own
 example : replyOptions false (some [.ecs ⟨1, 19, 19, some [10, 1, 0xe0, 0]⟩, .other 11 "up"])
     [.ecs ⟨1, 19, 0, some [10, 1, 0xe0, 0]⟩] [.other 10 "srv"] true = some [.other 10 "srv", .other 11 "srv"] := by decide
